@@ -30,7 +30,9 @@ NoXfer == {}
 GenE == <<Acc(2, 1, 1, Z1, 0), Acc(1, 1, 1, <<1>>, 1), Acc(1, 1, 1, Z1, 0), Acc(0, 1, 1, Z1, 0), Acc(1, 1, 1, Z1, 0),
           Acc(1, 0, 0, Z1, 0), None1, None1, None1, None1>>
 LockE == <<TRUE, TRUE, TRUE, TRUE, TRUE, FALSE, FALSE, FALSE, FALSE, FALSE>>
-OpsE == {"push", "popok", "popsuicide", "popabort", "sstore", "tstore", "log", "xfer", "etx", "claim"}
+OpsE == {"push", "popok", "popsuicide", "popabort", "sstore", "tstore", "log", "xfer", "etx", "xcall", "claim"}
+\* simulation of long programs: without the one-step cross-zone transaction (it would be 2/3 of all random runs)
+OpsES == OpsE \ {"xcall"}
 FrE == <<1, 2, 3, 4, 5>>
 NewE == <<8, 9, 10>>
 XferE == {6, 7}
